@@ -218,6 +218,49 @@ pub fn classify(c: &FileCase) -> CaseInfo {
         .class(std::str::from_utf8(&c.header.tape).is_err() || std::str::from_utf8(&c.header.icao).is_err(), "header-not-utf8")
 }
 
+#[derive(Clone, Debug, Serialize, Deserialize)]
+pub struct AfterFailureCase {
+    /// payload of the record that is damaged and decompressed first (large enough for several bzip2 blocks)
+    pub damaged_seed: u64,
+    pub damaged_len: u32,
+    /// 0 = truncate the compressed stream at `at`, 1 = flip a byte at `at` (scaled into the last two thirds)
+    pub damage_kind: u8,
+    pub at: u16,
+    /// the well-formed record decompressed afterwards on the same thread
+    pub good: Payload,
+    pub repeats: u8,
+}
+
+/// History clause: a failed (or partially successful) decompression must not influence a later one.
+pub fn check_after_failure(c: &AfterFailureCase) -> Check {
+    use nexrad_data::volume::Record;
+    let big = Payload::Pattern { seed: c.damaged_seed, len: c.damaged_len, compressible: false }.bytes();
+    let mut stream = bzip2_compress(&big, 1); // 100 KB blocks: several blocks for payloads > 100 KB
+    let n = stream.len();
+    let pos = n / 3 + ((c.at as usize * (n - n / 3)) >> 16);
+    if c.damage_kind % 2 == 0 {
+        stream.truncate(pos.max(8));
+    } else if pos < n {
+        stream[pos] ^= 0x5A;
+    }
+    let damaged = Record::new(encode_record(&stream, false));
+    let good_payload = c.good.bytes();
+    let good = Record::new(encode_record(&bzip2_compress(&good_payload, 9), false));
+    for round in 0..=c.repeats.min(3) {
+        // whatever the damaged record yields (error or some bytes) is not judged here, only that it returns
+        let _ = no_panic("Record::decompress", || damaged.decompress().map(|r| r.data().len()))?;
+        let out = no_panic("Record::decompress", || good.decompress())?
+            .map_err(|e| Fail::new("roundtrip:decompress-error", format!("round {}: {:?}", round, e)))?;
+        ensure!(
+            out.data() == &good_payload[..],
+            "roundtrip:payload-differs-after-failed-decompress",
+            "round {}: after a failed decompression on the same thread the next record decompressed to {} bytes, its payload has {} bytes",
+            round, out.data().len(), good_payload.len()
+        );
+    }
+    Ok(())
+}
+
 pub fn run(ctx: &Ctx, rep: &mut Report) {
     rep.trust("independent container encoder: 24-byte header (9+3+4+4+4), records = 4-byte big-endian signed size + |size| bytes");
     rep.trust("libbz2 through the bzip2 crate is used to *produce* compressed bodies; the round-trip oracle is the payload, not the compressor");
@@ -257,6 +300,16 @@ pub fn run(ctx: &Ctx, rep: &mut Report) {
         classify,
         check_file,
     );
+    rep.prop(
+        "decompress-after-failure",
+        "proptest (operation sequence): decompress a damaged multi-block record (stream truncated or a byte flipped in its last two thirds, so that output was already produced when the failure occurs), then decompress a well-formed record on the same thread, up to 4 rounds: the second result must be its payload byte-for-byte; every case is non-trivial",
+        ctx.tier.pick(160, 3_000),
+        || {
+            (any::<u64>(), 150_000u32..=420_000, any::<u8>(), any::<u16>(), payload_strategy(), 0u8..=3).prop_map(|(damaged_seed, damaged_len, damage_kind, at, good, repeats)| AfterFailureCase { damaged_seed, damaged_len, damage_kind, at, good, repeats })
+        },
+        |c| CaseInfo::new(true).class(c.damage_kind % 2 == 0, "truncated-stream").class(c.damage_kind % 2 == 1, "corrupted-block"),
+        check_after_failure,
+    );
     rep.require_class("files", "negative-prefix", 50);
     rep.require_class("files", "zero-length-body", 20);
     rep.require_class("files", "payload-is-bzip2", 10);
@@ -266,6 +319,7 @@ pub fn run(ctx: &Ctx, rep: &mut Report) {
 pub fn replay(sub: &str, case: &Value) -> Check {
     match sub {
         "files" => check_file(&from_case::<FileCase>(case)?),
+        "decompress-after-failure" => check_after_failure(&from_case::<AfterFailureCase>(case)?),
         other => super::unknown_sub(other),
     }
 }
